@@ -19,7 +19,7 @@ CONF = {
         rand=[('set', ALLC)],
         rand_size=((30, 80, 12), (300, 150, 40))),
     'C03': dict(
-        mc=[('catalog', (2, 3, 2, 1), (3, 4, 2, 1))],
+        mc=[('catalog', (2, 3, 2, 1), (3, 4, 2, 1)), ('keysC', (2, 3, 3, 1), (3, 3, 3, 1))],
         edge_codecs=(['int', 'ptr'], KEYC),
         rand=[('catalog', KEYC)],
         rand_size=((30, 80, 8), (300, 150, 12))),
@@ -29,7 +29,7 @@ CONF = {
         rand=[('stack', ['int', 'string', 'any'])],
         rand_size=((30, 80, 20), (300, 150, 40))),
     'C14': dict(
-        mc=[('map', (2, 3, 2, 1), (3, 4, 3, 1))],
+        mc=[('map', (2, 3, 2, 1), (3, 4, 3, 1)), ('keysM', (2, 3, 3, 1), (3, 3, 3, 1))],
         edge_codecs=(['int', 'string'], ['int', 'string', 'rune', 'any']),
         rand=[('map', ['int', 'string', 'rune', 'any'])],
         rand_size=((30, 80, 8), (300, 150, 12))),
@@ -39,9 +39,10 @@ CONF = {
         rand=[('set', ['int', 'string', 'slice', 'any'])],
         rand_size=((20, 80, 12), (200, 150, 40))),
     'C16': dict(
-        mc=[('merge', (2, 3, 0, 1), (3, 4, 0, 1)), ('catalogfn', (2, 2, 2, 1), (3, 3, 3, 1)), ('concat', (2, 2, 2, 1), (2, 3, 2, 1))],
-        edge_codecs=(['int'], ['int', 'string', 'any']),
-        rand=[('catalog', ['int', 'string'])],
+        mc=[('merge', (2, 3, 0, 1), (3, 4, 0, 1)), ('catalogfn', (2, 2, 2, 1), (3, 3, 3, 1)), ('concat', (2, 2, 2, 1), (2, 3, 2, 1)),
+            ('extract', (2, 2, 2, 2), (2, 3, 2, 2))],
+        edge_codecs=(['int', 'ptr'], ['int', 'string', 'any', 'ptr']),
+        rand=[('catalog', ['int', 'string', 'ptr'])],
         rand_size=((20, 80, 8), (200, 150, 12))),
     'C17': dict(
         mc=[('iter', (2, 3, 0, 1), (2, 4, 0, 1))],
@@ -65,7 +66,10 @@ def tainted(rej, ops):
     x = rej['line']
     if (x['k'], x['m']) in ops:
         return True
-    return any(h.get('t') == 'call' and (h['k'], h['m']) in ops for h in rej['history'])
+    if any(h.get('t') == 'call' and (h['k'], h['m']) in ops for h in rej['history']):
+        return True
+    # the unlogged part of an edge script (the real history that led to the pre-state)
+    return any((st['k'], st['m']) in ops for st in rej.get('steps', ()))
 
 
 def frame_changed(rej):
@@ -186,6 +190,8 @@ def run(ctx):
         return fname.rsplit('_', 1)[1].split('.')[0]
     out_of_scope = 0
     for rej in rejects:
+        sc = (scripts_by_file.get(rej['file']) or {}).get(rej['line'].get('sid'))
+        rej['steps'] = sc['steps'] if sc else []
         if not in_scope(ctx.prop, rej):
             out_of_scope += 1
             if out_of_scope <= 3:
